@@ -127,7 +127,7 @@ def classify_known(r):
     if parked:
         return "oversize-not-first"
     # put after the consumer finished draining on failure
-    failed_at = next((k for k, e in enumerate(r["evs"]) if e["ev"] == "ApiRet" and not e["ok"]), None)
+    failed_at = next((k for k, e in enumerate(r["evs"]) if (e["ev"] == "ApiRet" and not e["ok"]) or e["ev"] == "PageFail"), None)
     if failed_at is not None:
         flag_at = next((k for k, e in enumerate(r["evs"]) if e["ev"] == "FlagSet"), None)
         for k, e in enumerate(r["evs"]):
@@ -168,6 +168,8 @@ def check_run(ctx, r, scen):
         if e["ev"] == "ApiCall" and failed:
             ctx.violation("call-after-failure", "API call issued after a failed call", scen)
             return
+        if e["ev"] == "PageFail":
+            failed = True
         if e["ev"] == "ApiRet":
             if e["ok"]:
                 seen_ok.update(ok_calls[nok]["items"])
@@ -200,6 +202,9 @@ def impl_part(ctx):
         {"producers": [[[300, False], [300, True]]], "maxops": 250, "maxbytes": 1000, "window": 0.0, "fail_at": 1},
         {"producers": [[[300, True]], [[300, True]]], "maxops": 2, "maxbytes": 1000, "window": 0.0, "fail_at": 1},
         {"producers": [[[300, False], [1150, True]]], "maxops": 250, "maxbytes": 1000, "window": 1.0, "fail_at": None},
+        # the call succeeds, its answer is paginated, the page fetch fails (with another update queued / in the overflow queue)
+        {"producers": [[[300, True]], [[300, True]]], "maxops": 1, "maxbytes": 1000, "window": 0.0, "fail_at": None, "page_fail_at": 1},
+        {"producers": [[[600, False], [600, True]]], "maxops": 250, "maxbytes": 1000, "window": 1.0, "fail_at": None, "page_fail_at": 1},
     ]
     budget = 120 if ctx.quick else 3000
     for plan in tiny:
